@@ -95,6 +95,126 @@ FormatAddresses(a) ==
                \o << SP >> \o DecText(a.sp) \o << SP >> \o DecText(a.dp) \o CRLF
 
 (***************************************************************************)
+(* Part II -- the algorithm of src/v1/mod.rs, step by step.                *)
+(* Outcomes: [k |-> "ok", hdr, proto, sa, da, sp, dp] or                   *)
+(*           [k |-> "err", e |-> kind, w |-> "Parse" | "Utf8" | "-"].      *)
+(***************************************************************************)
+ErrM(kind) == [k |-> "err", e |-> kind, w |-> "-"]
+OkM(header, d) == [k |-> "ok", hdr |-> header, proto |-> d.proto, sa |-> d.sa, da |-> d.da, sp |-> d.sp, dp |-> d.dp]
+
+(* `u16::from_str` after the sign / leading-zero tests of the crate *)
+PortParses(s) == s # << >> /\ IsDigits(s) /\ Len(s) <= 5 /\ DecValue(s) <= 65535
+PortRejectedEarly(s) == (s # << >> /\ s[1] = 48 /\ s # << 48 >>) \/ (s # << >> /\ s[1] = 43)
+
+(* parse_addresses: p = all pieces, i = index of the first piece after the protocol.
+   All four pieces are required BEFORE any of them is validated. *)
+ParseAddressesM(p, i, six) ==
+    LET n == Len(p)
+        ipOk(t) == IF six THEN Ipv6Ok(t) ELSE Ipv4Ok(t)
+        ipVal(t) == IF six THEN Ipv6Val(t) ELSE Ipv4Val(t)
+    IN  IF i > n THEN ErrM("MissingSourceAddress")
+        ELSE IF i + 1 > n THEN ErrM("MissingDestinationAddress")
+        ELSE IF i + 2 > n THEN ErrM("MissingSourcePort")
+        ELSE IF i + 3 > n \/ (p[i + 3] = << >> /\ i + 3 = n) THEN ErrM("MissingDestinationPort")
+        ELSE IF ~ipOk(p[i]) THEN ErrM("InvalidSourceAddress")
+        ELSE IF ~ipOk(p[i + 1]) THEN ErrM("InvalidDestinationAddress")
+        ELSE IF PortRejectedEarly(p[i + 2]) \/ ~PortParses(p[i + 2]) THEN ErrM("InvalidSourcePort")
+        ELSE IF PortRejectedEarly(p[i + 3]) \/ ~PortParses(p[i + 3]) THEN ErrM("InvalidDestinationPort")
+        ELSE [k |-> "ok", proto |-> IF six THEN "TCP6" ELSE "TCP4", sa |-> ipVal(p[i]), da |-> ipVal(p[i + 1]),
+              sp |-> DecValue(p[i + 2]), dp |-> DecValue(p[i + 3])]
+
+UnknownValue == [proto |-> "UNKNOWN", sa |-> << >>, da |-> << >>, sp |-> 0, dp |-> 0]
+
+(* parse_line *)
+ParseLineM(header) ==
+    IF header = << >> THEN ErrM("MissingPrefix")
+    ELSE IF Len(header) > MaxLen THEN ErrM("HeaderTooLong")
+    ELSE LET p == SplitN(header, {SP, CR}, 7)
+             prefix == p[1]
+         IN  IF prefix # << >> /\ StartsWith(PROXY, prefix) /\ EndsWith(header, prefix) THEN ErrM("Partial")
+             ELSE IF prefix # PROXY THEN ErrM("InvalidPrefix")
+             ELSE IF Len(p) < 2 THEN ErrM("MissingProtocol")
+             ELSE LET proto == p[2]
+                  IN  IF proto = TCP4 \/ proto = TCP6
+                      THEN LET a == ParseAddressesM(p, 3, proto = TCP6)
+                           IN  IF a.k = "err" THEN a
+                               ELSE IF Len(p) < 7 \/ p[7] = << >> THEN ErrM("MissingNewLine")
+                               ELSE IF p[7] # << LF >> THEN ErrM("InvalidSuffix")
+                               ELSE IF ~EndsWith(header, CRLF) THEN ErrM("MissingNewLine")
+                               ELSE OkM(header, a)
+                      ELSE IF proto = UNKNOWN
+                      THEN LET c == Find(header, CR)
+                               suffix == SubSeq(header, c + 1, Len(header))
+                           IN  IF c = 0 \/ suffix = << >> THEN ErrM("MissingNewLine")
+                               ELSE IF suffix = << LF >> THEN OkM(header, UnknownValue)
+                               ELSE ErrM("InvalidSuffix")
+                      ELSE IF proto = << >> /\ Len(p) = 2 THEN ErrM("MissingProtocol")
+                      ELSE IF proto # << >> /\ EndsWith(header, proto) /\ (StartsWith(TCP4, proto) \/ StartsWith(UNKNOWN, proto))
+                      THEN ErrM("Partial")
+                      ELSE ErrM("InvalidProtocol")
+
+(* terminal: the final counterpart of an error that asks for more input *)
+TerminalM(header, kind) ==
+    CASE kind = "Partial" -> IF StartsWith(header, PROXY) THEN "InvalidProtocol" ELSE "InvalidPrefix"
+      [] kind = "MissingPrefix" -> "InvalidPrefix"
+      [] kind = "MissingProtocol" -> "InvalidProtocol"
+      [] kind = "MissingSourceAddress" -> "InvalidSourceAddress"
+      [] kind = "MissingDestinationAddress" -> "InvalidDestinationAddress"
+      [] kind = "MissingSourcePort" -> "InvalidSourcePort"
+      [] kind = "MissingDestinationPort" -> "InvalidDestinationPort"
+      [] kind = "MissingNewLine" -> "InvalidSuffix"
+      [] OTHER -> kind
+
+(* parse_header: a terminated line never asks for more input *)
+ParseHeaderM(header) ==
+    LET c == Find(header, CR)
+        terminated == c > 0 /\ c < Len(header)
+        r == ParseLineM(header)
+    IN  IF r.k = "err" /\ terminated /\ r.e \in IncompleteKinds THEN ErrM(TerminalM(header, r.e)) ELSE r
+
+(* the window both entry points cut before parsing; 0 = "too long, no CR" *)
+CutM(input) ==
+    LET c == Find(input, CR)
+    IN  IF c > 0 THEN Min2(c + 1, Len(input)) ELSE IF Len(input) >= MaxLen THEN -1 ELSE Len(input)
+
+Wrap(r, w) == IF r.k = "err" THEN [r EXCEPT !.w = w] ELSE r
+
+(* v1::Header::try_from(&[u8]) *)
+ParseBytesM(input) ==
+    LET n == CutM(input)
+        window == SubSeq(input, 1, n)
+    IN  IF n = -1 THEN Wrap(ErrM("HeaderTooLong"), "Parse")
+        ELSE IF ~Utf8Valid(window) THEN Wrap(ErrM("InvalidUtf8"), "Utf8")
+        ELSE Wrap(ParseHeaderM(window), "Parse")
+
+RECURSIVE NextBoundary(_, _)
+NextBoundary(input, n) == IF Utf8Boundary(input, n) THEN n ELSE NextBoundary(input, n + 1)
+
+(* v1::Header::try_from(&str); `input` is well-formed UTF-8 *)
+ParseStrM(input) ==
+    LET n == CutM(input)
+    IN  IF n = -1 THEN ErrM("HeaderTooLong")
+        ELSE ParseHeaderM(SubSeq(input, 1, NextBoundary(input, n)))
+
+IncompleteM(r) == r.k = "err" /\ r.e \in IncompleteKinds
+
+(* ---- views of src/v1/model.rs, with the index arithmetic of the code ---- *)
+ProtocolViewM(proto) == ProtoText(proto)
+
+AddressesStrRange(hdr, proto) ==
+    [start |-> 5 + 1 + Len(ProtoText(proto)), end |-> Len(hdr) - 2]
+
+(* the slice is taken only if the range is in order and in bounds, otherwise the code panics *)
+AddressesStrInRange(hdr, proto) ==
+    LET r == AddressesStrRange(hdr, proto)
+    IN  r.start <= r.end /\ r.end <= Len(hdr) /\ Utf8Boundary(hdr, r.start) /\ Utf8Boundary(hdr, r.end)
+
+AddressesStrM(hdr, proto) ==
+    LET r == AddressesStrRange(hdr, proto)
+        a == SubSeq(hdr, r.start + 1, r.end)
+    IN  IF a # << >> /\ a[1] = SP THEN Tail(a) ELSE a
+
+(***************************************************************************)
 (* Single-element corruption (C12).  A well-formed line has a unique       *)
 (* element structure; `Elements(line)` returns it as a record of byte      *)
 (* strings, `WithElement` rebuilds the line with one element replaced.     *)
